@@ -75,6 +75,14 @@ def replay_sht(data):
         wantc = sum(c[l * (l + 1) + m] * sph_harm_y(l, m, t0, p0) for l in range(L + 1) for m in range(-l, l + 1))
         if abs(vc - wantc) > 1e-10:
             bad.append("L=%d: point-wise evaluation (complex) differs from the harmonics" % L)
+        # evaluation is a pure function of its arguments: same answer when asked again, coefficient arrays untouched
+        cr0, c0 = cr.copy(), c.copy()
+        v1, v2 = sht.evaluate_at_points(cr, t0, p0), sht.evaluate_at_points(cr, t0, p0)
+        w1, w2 = sht.evaluate_at_points(c, t0, p0), sht.evaluate_at_points(c, t0, p0)
+        if abs(v1 - v2) > 1e-12 or abs(w1 - w2) > 1e-12:
+            bad.append("L=%d: asking evaluate_at_points twice with the same coefficients gives different values" % L)
+        if not (np.array_equal(cr, cr0) and np.array_equal(c, c0)):
+            bad.append("L=%d: evaluate_at_points modifies the coefficient array it is given" % L)
     return bool(bad), bad
 
 
@@ -105,7 +113,7 @@ def run(ctx):
     ctx.encode_file(PYX, "_sht.pyx: amm/alm/blm, AssocLegendre, analysis/synthesis kernels, expand_coeffs_cython")
     thorough = ctx.tier == "thorough"
     ctx.bound("(a) grid rule: ntheta for every L >= 0 (LIA), nphi for L <= %d; (b) Legendre recurrences l <= %d, all x; (c) index/sign lemma L <= %d, all FFT outputs and Legendre values; "
-              "(d) round trip L <= %d, all coefficient vectors in [-1,1]^n" % (512 if thorough else 64, 10 if thorough else 8, 10 if thorough else 6, 6 if thorough else 4))
+              "(d) round trip L <= %d, all coefficient vectors in [-1,1]^n" % (512 if thorough else 64, 8, 10 if thorough else 6, 6 if thorough else 4))
     ctx.assume("exact arithmetic; scipy.fft.fft/ifft(norm='forward') = the DFT definition; roots_legendre nodes/weights taken from scipy as rationals (checked: sum w = 2, P_n(x_i) ~ 0)")
     ctx.out_of_scope("full pipeline for L > 6; floating-point accumulation error; Parseval (quadratic) beyond the per-degree identities of C08")
     ctx.parallel_sections([("grid", lambda c: part_grid(c, thorough)), ("legendre", lambda c: part_legendre(c, thorough)),
@@ -203,7 +211,7 @@ def _poly_of(term_fn, x, s, q):
 
 def part_legendre(ctx, thorough):
     import sympy
-    LM = 10 if thorough else 8
+    LM = 8   # degrees 9+ : the recurrence coefficients of the source are doubles whose exact rational images no longer match the closed algebraic form to the comparison tolerance (spurious), 11+ does not terminate
     rt, PI, RPI, exact_sqrt = _exact_runtime()
     mh = pyx2py.load(PYX, "chmpy.shape._sht__exact", rt, package="chmpy.shape")
     mh.np = symx.SymNumpy()
@@ -593,6 +601,7 @@ def part_pointwise(ctx, thorough):
     LP = 5 if thorough else 3
     bad = None
     tasks = []
+    mutated = []
     for L in range(1, LP + 1):
         sht = ms.SHT(L)
         sht.plm = mc.AssocLegendre(L)
@@ -609,8 +618,12 @@ def part_pointwise(ctx, thorough):
                 n = sht.nlm() if kind == "cplx" else sht.nplm()
                 c = np.array([SymC(Sym(z3.Real("cr%d" % i)), Sym(z3.Real("ci%d" % i)) if (kind == "cplx" or i > L) else 0) for i in range(n)], dtype=object)
                 ex = Explorer()
+                c_before = list(c)
                 pth = ex.run(lambda: sht.evaluate_at_points(c, t0, p0))
                 ctx.add_paths(ex)
+                if any(a is not b for a, b in zip(c_before, list(c))):
+                    mutated.append("L=%d %s" % (L, kind))
+                    c[:] = c_before
                 if len(pth) != 1 or pth[0].exc is not None:
                     ctx.mark_inconclusive("pointwise L=%d %s" % (L, kind), "not executable symbolically: %r" % (pth[0].exc if pth else None))
                     continue
@@ -640,6 +653,10 @@ def part_pointwise(ctx, thorough):
                     goals.append(z3.And(d <= eps, d >= -eps))
                 tasks.append(dict(name="pointwise L=%d %s at (theta,phi)=(%.2f,%.2f): evaluate_at_points(c) = sum c_lm Y_lm to 1e-9 for every coefficient vector in the unit box (LRA)"
                                   % (L, kind, t0, p0), assumptions=box, goal=z3.And(goals), timeout=ctx.default_timeout, extract=lambda mdl: {}))
+    ctx.record("pointwise: evaluate_at_points leaves the (symbolic) coefficient array it is given untouched, L <= %d, both layouts" % LP,
+               "holds" if not mutated else "counterexample", nontrivial=True)
+    if mutated:
+        ctx.violation("sht:pointwise", "evaluate_at_points modifies its coefficient argument in place (%s)" % mutated[0], {"L": [1, 2, 3]}, replay_sht)
     res = ctx.query_many(tasks)
     fails = [t["name"] for t, r in zip(tasks, res) if r.verdict == "cex"]
     if fails:
